@@ -113,11 +113,8 @@ theorem deAction_wf (j : Json) (a : Action) (h : deAction j = some a) : a.WF := 
   unfold deAction at h
   split at h
   · rename_i kvs
-    simp only [bind, Option.bind] at h
-    repeat (split at h <;> try (exact absurd h (by simp)))
-    simp only [pure, Option.some.injEq] at h
-    subst h
-    rename_i _ _ _ _ _ _ ri hri _ _ _ ra hra _ _
+    simp only [Option.bind_eq_bind, Option.bind_eq_some_iff, Option.pure_def, Option.some.injEq] at h
+    obtain ⟨s, _, hf, _, bf, _, ri, hri, rt, _, ra, hra, lo, _, rfl⟩ := h
     refine ⟨?_, ?_⟩
     · unfold reqField at hri
       split at hri
@@ -128,11 +125,8 @@ theorem deAction_wf (j : Json) (a : Action) (h : deAction j = some a) : a.WF := 
       · simp only [Option.some.injEq] at hra; subst hra; simp
       · exact deSet_nodup _ _ hra
       · exact absurd hra (by simp)
-  · simp only [bind, Option.bind] at h
-    repeat (split at h <;> try (exact absurd h (by simp)))
-    simp only [pure, Option.some.injEq] at h
-    subst h
-    rename_i _ _ _ _ _ _ ri hri _ _ _ ra hra _ _
+  · simp only [Option.bind_eq_bind, Option.bind_eq_some_iff, Option.pure_def, Option.some.injEq] at h
+    obtain ⟨s, _, hf, _, bf, _, ri, hri, rt, _, ra, hra, lo, _, rfl⟩ := h
     exact ⟨deSet_nodup _ _ hri, deSet_nodup _ _ hra⟩
   · exact absurd h (by simp)
 
